@@ -456,6 +456,37 @@ def _task_hist(task):
                                     V("C08|%s|history-attribute-accepted|%s" % (opn, C.CKA_NAMES[ha]), {"value": val, "position": posn})
                             finally:
                                 sh.unwind(d0)
+            # template-length ladder: the history and protection attributes of the new key must not depend on how many (harmless) entries the caller's
+            # template has - the creating functions copy the template into internal arrays of fixed capacity and append their own entries
+            f1 = [(C.CKA_ID, b"id"), (C.CKA_ENCRYPT, True), (C.CKA_DECRYPT, True), (C.CKA_SIGN, True), (C.CKA_VERIFY, True), (C.CKA_WRAP, False), (C.CKA_UNWRAP, False),
+                  (C.CKA_DERIVE, True), (C.CKA_COPYABLE, True), (C.CKA_DESTROYABLE, True), (C.CKA_MODIFIABLE, True), (C.CKA_START_DATE, b"20200101"), (C.CKA_END_DATE, b"20400101")]
+            fpriv = [(C.CKA_ID, b"id"), (C.CKA_DECRYPT, False), (C.CKA_SIGN, True), (C.CKA_UNWRAP, False), (C.CKA_DERIVE, True), (C.CKA_COPYABLE, True), (C.CKA_DESTROYABLE, True),
+                     (C.CKA_MODIFIABLE, True), (C.CKA_START_DATE, b"20200101"), (C.CKA_END_DATE, b"20400101")]
+            WATCH = [C.CKA_LOCAL, C.CKA_ALWAYS_SENSITIVE, C.CKA_NEVER_EXTRACTABLE, C.CKA_KEY_GEN_MECHANISM, C.CKA_SENSITIVE, C.CKA_EXTRACTABLE]
+            for opn, (fmt, T) in bases.items():
+                if opn == "generate-pair-pub":
+                    continue
+                fill = (fpriv if opn == "generate-pair-priv" else f1) * 4
+                refv = None
+                for n in range(0, len(fill) + 1):
+                    d0 = sh.depth
+                    sh.snap(copy=False)
+                    try:
+                        r = p.call(fmt % tpl(T + fill[:n]))
+                        ctx.count("ladder_cases")
+                        if r["rv"] != 0:
+                            ctx.count("ladder_refused")
+                            continue
+                        h = r.get("hpriv") or r.get("h")
+                        g = p.get_attrs(s, h, WATCH)
+                        ctx.count("ladder_created")
+                        if refv is None:
+                            refv = g
+                        elif g != refv:
+                            diff = sorted(C.CKA_NAMES.get(t, hex(t)) for t in WATCH if g.get(t) != refv.get(t))
+                            V("C08|%s|template-length|%s-depends-on-the-number-of-template-entries" % (opn, "+".join(diff)), {"entries": len(T) + n, "got": repr(g), "with_the_short_template": repr(refv)})
+                    finally:
+                        sh.unwind(d0)
         finally:
             sh.unwind(0)
     except Died as d:
